@@ -53,27 +53,57 @@ CAPTURE = Capture()
 
 
 class ModelECU(Peer):
-    """Line-protocol ECU. `respond(session, req) -> (reply|None, new_session)` is supplied by the check."""
+    """Line-protocol ECU. `respond(session, req) -> (reply|None, new_session)` is supplied by the check.
+
+    Optional model attributes:  latency (s, every reply is sent that much later),  s3 (s, session falls back to the default
+    session when no request was answered for that long),  down_after(req) -> seconds the ECU is down (silent, then default
+    session) after receiving `req`."""
 
     def __init__(self, model: Any) -> None:
         self.model = model
         self.rx = bytearray()
         self.session = 1
         self.log: list[tuple[int, bytes]] = []  # (session in which it was received, request)
+        self.latency = float(getattr(model, "latency", 0.0) or 0.0)
+        self.s3 = getattr(model, "s3", None)
+        self.last_answer = 0.0
+        self.down_until = -1.0
 
     def on_data(self, data: bytes) -> None:
         self.rx += data
+        loop = self.conn.loop
         while b"\n" in self.rx:
             line, rest = bytes(self.rx).split(b"\n", 1)
             self.rx = bytearray(rest)
             req = bytes.fromhex(line.decode())
+            now = loop.time()
+            if now < self.down_until:
+                self.log.append((0, req))  # received while down: session 0 = nobody home
+                continue
+            if self.down_until >= 0:
+                self.down_until = -1.0
+                self.session = 1
+                self.last_answer = now
+            if self.s3 is not None and self.session != 1 and now - self.last_answer > self.s3:
+                self.session = 1
             self.log.append((self.session, req))
+            down = getattr(self.model, "down_after", None)
+            d = down(req) if down is not None else 0
+            if d:
+                self.down_until = now + d
+                continue
             reply, self.session = self.model.respond(self.session, req)
+            if reply is not None or (req[0] == 0x3E):
+                self.last_answer = now
             if reply is not None:
-                self.send(reply.hex().encode() + b"\n")
+                line_out = reply.hex().encode() + b"\n"
+                if self.latency > 0:
+                    loop.call_later(self.latency, self.send, line_out)
+                else:
+                    self.send(line_out)
 
 
-def run_scanner(cls_name: str, cfg_name: str, cfg_kwargs: dict[str, Any], model: Any, db: bool = False) -> dict[str, Any]:
+def run_scanner(cls_name: str, cfg_name: str, cfg_kwargs: dict[str, Any], model: Any, db: bool = False, keep_db: bool = False) -> dict[str, Any]:
     """One complete scanner run (benign schedule). Returns observations.
     db=True: the run writes a scan database (aiosqlite replaced by vf.engine.dbshim); box['db_path'] is the file."""
     box: dict[str, Any] = {}
@@ -90,6 +120,8 @@ def run_scanner(cls_name: str, cfg_name: str, cfg_kwargs: dict[str, Any], model:
         d.mkdir(parents=True, exist_ok=True)
         dbp = d / f"scan-{os.getpid()}.sqlite"
         for suffix in ("", "-wal", "-shm"):
+            if keep_db:
+                break
             try:
                 os.unlink(str(dbp) + suffix)
             except FileNotFoundError:
